@@ -204,12 +204,18 @@ impl Disk {
 
     /// All regular files under `dir` (non-recursive names relative to dir), sorted.
     pub fn list_files(&self, dir: &str) -> Vec<(String, Vec<u8>)> {
+        // what a process that opens `dir`/<name> would read: links are followed (the directory's own, and entries')
+        let dir = self.walk(dir, true).unwrap_or_else(|_| dir.to_string());
         let prefix = format!("{}/", dir);
         let mut out = vec![];
         for (p, ino) in &self.names {
             if let Some(rest) = p.strip_prefix(&prefix) {
                 let i = &self.inodes[ino];
-                if !i.is_dir && i.link.is_none() {
+                if i.link.is_some() {
+                    if let Some(data) = self.file(p) {
+                        out.push((rest.to_string(), data.to_vec()));
+                    }
+                } else if !i.is_dir {
                     out.push((rest.to_string(), i.data.clone()));
                 }
             }
